@@ -384,6 +384,10 @@ def main() -> int:
         "wall_s": round(time.time() - t0, 2),
         "violations": len(replay_paths),
     }
+    if proof_broken:
+        # not a proof-level run any more: report it through the generic counts, never as "0 discharged"
+        ev["coverage"]["obligations_stated"] = ev["coverage"].pop("obligations")
+        ev["coverage"]["obligations_discharged"] = ev["coverage"].pop("discharged")
     C.write_evidence(pid, ev)
     print(f"{pid} tier={tier} seed={seed}: theorems={len(theorems)} discharged={discharged} cases={len(records)} "
           f"validated={ev['coverage']['traces_validated_against_impl']} disagreements={len(disagreements)} "
